@@ -42,7 +42,7 @@ def run(ctx):
         "modelled, not verified: encoding/json decoding of a line into the message structs (the harness hands the Lean side the decoded shape); process liveness is observed, not proved",
     ]
     ctx.assumptions += ["Go runtime faults outside the modelled code (out of memory on a gigabyte line: bufio.ReadBytes is unbounded) are not exhibited"]
-    L.regen(ctx, ["C05"])
+    L.regen(ctx, ["C05", "C01"])
     L.prove(ctx)
     if not L.build_driver(ctx):
         return
@@ -74,8 +74,18 @@ def run(ctx):
         seen.add(sig)
         L.violation(ctx, sig, "the process died: %s at %s" % (what, site), {"clause": "no input crashes the process", "case": h, "ops": ops, "panic": what, "site": site,
                                                                          "how_to_replay": "bin/check C05 --replay <this file>"})
-    comps = L.run_monitor(ctx, "c05", "c05s.all.txt")
-    L.handle_complaints(ctx, comps, lambda clause, op: "c05:" + re.sub(r"-+", "-", re.sub(r"[^A-Za-z]+", "-", clause)).strip("-")[:80])
+    comps = L.run_monitor(ctx, "c05s", "c05s.all.txt")
+    allcases = {h: ls for h, ls in L.parse_cases(ctx.out + "/c05s.all.txt")}
+    for case, c in comps:
+        body, _, op = c.partition(" @ ")
+        if not body.startswith("PROP "):
+            continue
+        sig = "c05:" + re.sub(r"-+", "-", re.sub(r"[^A-Za-z]+", "-", re.sub(r"\[.*", "", body[5:]))).strip("-")[:80]
+        if sig in seen:
+            continue
+        seen.add(sig)
+        L.violation(ctx, sig, body[5:], {"clause": body[5:], "case": case, "ops": [l for l in allcases.get(case, []) if l.startswith("> ")],
+                                        "how_to_replay": "bin/check C05 --replay <this file>"})
     ctx.coverage.update({
         "evaluations": sum(len([l for l in ls if l.startswith("> ")]) for h, ls in pcases) + total,
         "distinct_nontrivial": total,
